@@ -96,9 +96,8 @@ def _sweep_chunk(task):
     extra = []
     for i in range(s, e):
         case = space.case(i)
-        text = space.text(case)
-        digest = (digest + common.case_hash_int(text)) % (1 << 128)
-        r = evaluate(text)
+        digest = (digest + common.case_hash_int(space.key(case))) % (1 << 128)
+        r = evaluate(space.payload(case))
         f = r.get("fail")
         if f is not None:
             fails.append((i, f[0], f[1]))
@@ -128,10 +127,10 @@ def _sweep_chunk(task):
     }
 
 
-def sweep(space, evaluate, init=None):
+def sweep(space, evaluate, init=None, chunk=None):
     _G["space"] = space
     _G["evaluate"] = evaluate
-    tasks = pool.chunks(len(space), CHUNK)
+    tasks = pool.chunks(len(space), chunk or CHUNK)
     results = pool.pmap(_sweep_chunk, tasks, init=init)
     # determinism gate: re-run the first cases after the workers have done other work
     gate_n = min(len(space), 200)
@@ -174,7 +173,7 @@ def minimal_cores(space, fails, evaluate=None, closed=True):
     order = []
     for i, sig, detail in fails:
         case = space.case(i)
-        text = space.text(case)
+        text = space.key(case)
         if text not in by_text:
             by_text[text] = (sig, detail, case)
             order.append(text)
@@ -185,7 +184,7 @@ def minimal_cores(space, fails, evaluate=None, closed=True):
         sig, detail, case = by_text[text]
         is_min = True
         for sub in space.subcases(case):
-            st = space.text(sub)
+            st = space.key(sub)
             if st == text:
                 continue
             if st in by_text:
@@ -194,7 +193,7 @@ def minimal_cores(space, fails, evaluate=None, closed=True):
                 ssig = None
             else:
                 if st not in cache:
-                    f = evaluate(st).get("fail")
+                    f = evaluate(space.payload(sub)).get("fail")
                     cache[st] = f[0] if f is not None else None
                 ssig = cache[st]
             if ssig is not None and ssig == sig:
@@ -232,7 +231,7 @@ def run_doc_check(mod, tier):
         mod.init()
     space = mod.space(tier)
     t0 = time.time()
-    merged = sweep(space, mod.evaluate)
+    merged = sweep(space, mod.evaluate, chunk=getattr(mod, "CHUNK", None))
     t_sweep = time.time() - t0
     mins, n_fail_distinct, attributed = minimal_cores(space, merged["fails"])
 
@@ -273,7 +272,7 @@ def run_doc_check(mod, tier):
     listed_fail = {}
     listed_pass = []
     for key, (fid, lsig) in led.by_key.items():
-        f = mod.evaluate(key).get("fail")
+        f = mod.evaluate(space.payload_from_key(key)).get("fail")
         if f is None:
             listed_pass.append((fid, key))
         else:
@@ -309,7 +308,7 @@ def run_doc_check(mod, tier):
         if n >= MAX_VIOLATION_LINES:
             break
         path = evidence.write_replay(
-            prop, n, {"case": {"text": text}, "signature": sig, "observation": detail}
+            prop, n, {"case": {"key": text}, "signature": sig, "observation": detail}
         )
         ok, out = (True, "") if os.environ.get("VF_NO_CONFIRM") == "1" else confirm_in_subprocess(prop, path)
         if not ok:
@@ -339,7 +338,7 @@ def run_doc_check(mod, tier):
     samples = []
     step = max(1, len(space) // 6)
     for i in range(0, len(space), step):
-        samples.append(space.text(space.case(i)))
+        samples.append(space.key(space.case(i)))
     if fr is not None and fdocs:
         samples.append("\n".join(fdocs[-1]))
     ev.coverage = {
@@ -368,8 +367,12 @@ def run_doc_check(mod, tier):
         "stale_records": stale_records,
         "caps_hit": [],
         "sweep_wall_s": round(t_sweep, 1),
-        "states_meaning": "distinct abstract parser states (token stack + kind of last token) observed at line boundaries; "
-        "transitions = line feeds executed on the real parser",
+        "states_meaning": getattr(
+            mod,
+            "STATES_MEANING",
+            "distinct abstract parser states (token stack + kind of last token) observed at line boundaries; "
+            "transitions = line feeds executed on the real parser",
+        ),
     }
     ev.coverage.update(extra_cov)
     ev.assumptions += getattr(mod, "ASSUMPTIONS", [])
@@ -386,10 +389,11 @@ def run_doc_check(mod, tier):
 def replay_doc(mod, path):
     with open(path, encoding="utf-8") as f:
         rp = json.load(f)
-    text = rp["case"]["text"]
+    text = rp["case"]["key"]
     if hasattr(mod, "init"):
         mod.init()
-    r = mod.evaluate(text)
+    payload = mod.space("quick").payload_from_key(text)
+    r = mod.evaluate(payload)
     f = r.get("fail")
     print(f"replay property={mod.PROP} case={text!r}")
     if f is None:
